@@ -152,6 +152,7 @@ type runner struct {
 	nextDB  int
 	lastLen int64
 	prevTape []byte
+	saved    map[string][]byte
 }
 
 // count-limited listings of every directory: Readdir(n) must return at most n entries, all of them
@@ -955,6 +956,27 @@ func (r *runner) exec(c Call) (ret map[string]interface{}, err error) {
 			var root string
 			root, err = in2.s.Initialize(rootOf(r.h.Config), os.ModePerm)
 			ret["root"] = root
+		}
+	case "savedrive": // remember the drive bytes under a key
+		var b []byte
+		b, err = os.ReadFile(r.in.drive)
+		if r.saved == nil {
+			r.saved = map[string][]byte{}
+		}
+		r.saved[c.Name] = b
+		ret["len"] = len(b)
+	case "loaddrive": // restore the first Off bytes (Off < 0: all) of a remembered drive image
+		b := r.saved[c.Name]
+		if c.Off >= 0 && int(c.Off) <= len(b) {
+			b = b[:c.Off]
+		}
+		err = os.WriteFile(r.in.drive, b, 0o600)
+		r.prevTape = nil
+	case "newindex": // continue with an empty index over the same drive, without initialising
+		var in2 *inst
+		in2, _, err = r.freshInstance(false)
+		if err == nil {
+			r.in = in2
 		}
 	case "truncdrive": // cut the drive file to Off bytes (crash simulation)
 		err = os.Truncate(r.in.drive, c.Off)
